@@ -114,6 +114,9 @@ pub struct Case {
     pub exp: Val,
     pub nbf: Val,
     pub class: String,
+    /// also call check_claim(exp|nbf = the token's own value) on the default parser: the time check must still apply
+    #[serde(default)]
+    pub also_check_claim: bool,
 }
 
 fn now_secs() -> i64 {
@@ -173,7 +176,15 @@ pub fn run_case(c: &Case, r: &mut Report, prop: &str) {
             return;
         }
     };
-    let cfg = ParserCfg { default_parser: true, ..Default::default() };
+    let mut cfg = ParserCfg { default_parser: true, ..Default::default() };
+    if c.also_check_claim {
+        if let Some(Value::String(s)) = &ev {
+            cfg.expected.push(Claim::Exp(s.clone()));
+        }
+        if let Some(Value::String(s)) = &nv {
+            cfg.expected.push(Claim::Nbf(s.clone()));
+        }
+    }
     let (out, _) = batteries_open(c.p, &c.key, &token, &cfg);
     let now1 = now_secs();
     let tag = c.p.name();
@@ -272,6 +283,15 @@ fn instants() -> Vec<(When, bool /*past*/)> {
         (When::Rel(31_536_000), false),
         (When::Abs(32_472_144_000), false),  // 2999-01-01
         (When::Abs(221_845_392_000), false), // 9000-01-01
+        // distances around 2^63 ns (292.3 years), 2^64 ns (584.5 years) and 2^32 / 2^31 seconds (136 / 68 years)
+        (When::Rel(2_147_483_648 - 30), false),
+        (When::Rel(2_147_483_648 + 30), false),
+        (When::Rel(4_294_967_296 + 30), false),
+        (When::Rel(9_223_372_036 - 60), false),
+        (When::Rel(9_223_372_036 + 60), false),
+        (When::Rel(15_000_000_000), false),
+        (When::Rel(18_446_744_073 + 60), false),
+        (When::Rel(100_000_000_000), false),
     ]
 }
 
@@ -283,9 +303,9 @@ pub fn build_cases(prop: &str, tier: &str, seed: u64, pools: &Pools) -> Vec<Case
     let mk = |p: P, v: Val, class: &str, other: Val| -> Case {
         let key = pools.key(p, 0);
         if is_exp {
-            Case { p, key, exp: v, nbf: other, class: class.to_string() }
+            Case { p, key, exp: v, nbf: other, class: class.to_string(), also_check_claim: false }
         } else {
-            Case { p, key, exp: other, nbf: v, class: class.to_string() }
+            Case { p, key, exp: other, nbf: v, class: class.to_string(), also_check_claim: false }
         }
     };
     // full rendering space on the cheap protocols
@@ -370,12 +390,28 @@ pub fn build_cases(prop: &str, tier: &str, seed: u64, pools: &Pools) -> Vec<Case
                             Val::Time { when, nanos, frac, .. } => Val::Time { when: when.clone(), nanos: *nanos, off_min: off, frac: *frac, style: Style::Strict },
                             o => o.clone(),
                         };
-                        cases.push(Case { p, key: pools.key(p, 0), exp: shift(&e), nbf: shift(&n), class: format!("grid exp={} nbf={}", en, nn) });
+                        cases.push(Case { p, key: pools.key(p, 0), exp: shift(&e), nbf: shift(&n), class: format!("grid exp={} nbf={}", en, nn), also_check_claim: false });
+                        if off == 0 {
+                            cases.push(Case { p, key: pools.key(p, 0), exp: shift(&e), nbf: shift(&n), class: format!("grid+check_claim exp={} nbf={}", en, nn), also_check_claim: true });
+                        }
                     }
                 }
             }
         }
     }
+    // every 89th strict-rendering case once more with check_claim(<same value>) registered on the default parser
+    let extra: Vec<Case> = cases
+        .iter()
+        .enumerate()
+        .filter(|(i, c)| i % 89 == 0 && (c.class == "strict-past" || c.class == "strict-future"))
+        .map(|(_, c)| {
+            let mut d = c.clone();
+            d.also_check_claim = true;
+            d.class = format!("{}+check_claim", c.class);
+            d
+        })
+        .collect();
+    cases.extend(extra);
     cases
 }
 
@@ -493,4 +529,4 @@ pub fn replay(prop: &str, case: &Value) -> Report {
     r
 }
 
-pub const RULE: &str = "payloads {\"exp\"|\"nbf\": value} are crafted at the core layer and parsed with PasetoParser::default(). Values: 13 instants (now-2s, -1min, -1h, -1d, -1y, 2000-01-01, 1971; now+60s, +1h, +1d, +1y, 2999, 9000-01-01) rendered by the harness's own calendar arithmetic with EVERY UTC offset -23:59..+23:59 x 0..9 fractional digits (strict grammar), 'Z', '-00:00' and lenient variants (space, 't', 'z') — full space on v4.local (thorough: all four local protocols and v2/v4 public), 300 (thorough 60000) sampled renderings on each other protocol; a catalogue of 40 non-timestamp values (numbers, booleans, arrays, objects, empty string, near-miss date strings) plus random text; null; absent; C12 additionally the 3x3 grid of (exp, nbf) in {past, future, absent} x 3 offsets. Plus clock-progress histories on all 8 protocols: a claim 1.5 s in the future is parsed, 2.6 s pass, and the SAME parser object (and a fresh one) must now give the opposite answer. Oracle: instant known by construction; strict renderings decide both ways, lenient renderings must merely never be accepted when out of window. distinct_nontrivial = distinct (protocol, outcome, class, instant, offset, fraction length, style) tuples";
+pub const RULE: &str = "payloads {\"exp\"|\"nbf\": value} are crafted at the core layer and parsed with PasetoParser::default(). Values: 21 instants (now-2s, -1min, -1h, -1d, -1y, 2000-01-01, 1971; now+60s, +1h, +1d, +1y, 2999, 9000-01-01, and now + {2^31, 2^32 seconds, 2^63 ns -/+ 1 min, 475 y, 2^64 ns, 3170 y}) rendered by the harness's own calendar arithmetic with EVERY UTC offset -23:59..+23:59 x 0..9 fractional digits (strict grammar), 'Z', '-00:00' and lenient variants (space, 't', 'z') — full space on v4.local (thorough: all four local protocols and v2/v4 public), 300 (thorough 60000) sampled renderings on each other protocol; a catalogue of 40 non-timestamp values (numbers, booleans, arrays, objects, empty string, near-miss date strings) plus random text; null; absent; a sample of the strict cases and the grid once more with check_claim(<the token's own value>) registered on the default parser (the time check must still apply); C12 additionally the 3x3 grid of (exp, nbf) in {past, future, absent} x 3 offsets. Plus clock-progress histories on all 8 protocols: a claim 1.5 s in the future is parsed, 2.6 s pass, and the SAME parser object (and a fresh one) must now give the opposite answer. Oracle: instant known by construction; strict renderings decide both ways, lenient renderings must merely never be accepted when out of window. distinct_nontrivial = distinct (protocol, outcome, class, instant, offset, fraction length, style) tuples";
